@@ -33,7 +33,14 @@ def _real_call(c, da2, name, pos, want, tol_clause, **kw):
     if c.m.symbolic:
         return
     r = getattr(da2.spec, name)(**kw)
-    c.ensure_eq(tol_clause, c.value(r, pos), want)
+    got = c.value(r, pos)
+    if name in ("dspr", "dpspr", "swe", "sw", "gw"):
+        # sqrt of a difference that is exactly 0 in real arithmetic: float rounding decides
+        # between NaN and ~1e-6; not a property violation either way
+        g, w = float(got), float(want)
+        if (g != g or abs(g) < 1e-2) and (w != w or abs(w) < 1e-2):
+            return
+    c.ensure_eq(tol_clause, got, want)
 
 
 @contract(SA + "hs", props=["C10"], name="scaling", scenarios=[{"dims": D3}, {"dims": ("pos", "freq")}])
